@@ -140,7 +140,16 @@ class C14(Property):
                     state["defaults"].add(t)
                     ops.append({"op": "regdef", "t": t})
             elif x < 0.80:
-                ops.append({"op": "run", "t": rng.randrange(NTYPES)})
+                y = rng.random()
+                if y < 0.12:
+                    # a request type DECLARED now as a subclass of one of the types: handlers are looked up by exact type, so
+                    # nothing serves it (no runtime holds it, no default was registered for it)
+                    ops.append({"op": "run_subtype", "t": rng.randrange(NTYPES)})
+                elif y < 0.22:
+                    # a worker inherits from a thread that has FINISHED (it had inherited from this thread here and now)
+                    ops.append({"op": "spawn_from_finished", "between": rng.choice([None, None, "block"])})
+                else:
+                    ops.append({"op": "run", "t": rng.randrange(NTYPES)})
             elif x < 0.88 and depth > 0:
                 ops.append({"op": "raise", "k": rng.randint(1, depth)})
                 break  # the rest of this body would be dead code
@@ -228,6 +237,16 @@ class C14(Property):
 
         def differs(got, want):
             return (got not in want) if isinstance(want, set) else (got != want)
+
+        def observe_raw(t, k=0):
+            try:
+                return types[t](k).run()
+            except TypeError:
+                return "TypeError"
+            except KeyError:
+                return "KEYERROR"
+            except SimRaise:
+                return "RAISE"
 
         def observe(t, k=0):
             touch()
@@ -376,6 +395,57 @@ class C14(Property):
                         shared["last_rereg"][op["t"]] = shared["seq"]
                     shared["seq"] += 1
                     res.bump("defaults_registered_again" if op.get("v") else "defaults_registered_late")
+                elif kind == "run_subtype":
+                    sub = type(f"Sub{op['t']}", (types[op["t"]],), {})
+                    touch()
+                    try:
+                        got = sub().run()
+                    except TypeError:
+                        got = "TypeError"
+                    except KeyError:
+                        got = "KEYERROR"
+                    except SimRaise:
+                        got = "RAISE"
+                    log.add("run_subtype", where, got)
+                    res.bump("requests_of_a_subtype")
+                    if got != "TypeError":
+                        res.violate("wrong-handler", where=where, type=f"subtype of {op['t']}", got=got, want="TypeError", stack=list(stack))
+                        return
+                elif kind == "spawn_from_finished":
+                    # P inherits from this thread and ends; (a block is entered and left;) C inherits from the finished P
+                    me = threading.current_thread()
+                    touch()
+                    want_holds = dict(cur_holds())
+                    own = bool(stack or base_obj is not None or base_holds or inherited)
+                    p_thread = threading.Thread(target=lambda: lrt.inherit(me), name="P")
+                    p_thread.start()
+                    p_thread.join()
+                    if op.get("between") == "block":
+                        with lrt.Runtime({}):
+                            pass
+                    seen = {}
+
+                    def c_body():
+                        lrt.inherit(p_thread)
+                        for t in range(NTYPES):
+                            seen[t] = observe_raw(t)
+
+                    c_thread = threading.Thread(target=c_body, name="C")
+                    c_thread.start()
+                    c_thread.join()
+                    res.bump("inherits_from_a_finished_thread")
+                    for t in range(NTYPES):
+                        if t in want_holds:
+                            want = want_holds[t]
+                        elif len(shared["default_tags"].get(t, ())) > 1:
+                            want = set(shared["default_tags"][t])
+                        else:
+                            want = defaults.get(t, "TypeError")
+                        log.add("from_finished", where, t, seen.get(t))
+                        if differs(seen.get(t), want):
+                            res.violate("inherit-from-finished-thread-lost-its-handlers", where=where, type=t, got=seen.get(t),
+                                        want=sorted(want) if isinstance(want, set) else want, stack=list(stack))
+                            return
                 elif kind == "run":
                     got = observe(op["t"])
                     log.add("run", where, got)
